@@ -217,4 +217,15 @@ theorem rsOf_index_sub (F : Frame) (ub : List Int) (u : Int) (c : TS) (h : (u, c
   obtain ⟨p, ⟨r, ⟨hr, _⟩, rfl⟩, rfl⟩ := ht
   exact ⟨r, hr, rfl⟩
 
+theorem column_ofTS_filter (s : TS) (w : Int → Bool) :
+    column 0 ((ofTS s).filter fun r => w r.1) = s.filter fun p => w p.1 := by
+  induction s with
+  | nil => rfl
+  | cons p s ih =>
+    simp only [ofTS, List.map_cons, List.filter_cons] at ih ⊢
+    split
+    · simp only [column, List.map_cons, List.cons.injEq]
+      exact ⟨by simp, ih⟩
+    · exact ih
+
 end Pyg.Slice
